@@ -9,6 +9,7 @@ import (
 	"encoding/binary"
 	"math/big"
 	"sort"
+	"strings"
 
 	vmcommon "github.com/ElrondNetwork/elrond-vm-common"
 )
@@ -130,6 +131,10 @@ const (
 type Ghost struct {
 	Highest map[string]uint64 // token -> highest nonce ever issued by a successful ESDTNFTCreate
 	Issued  map[string][]byte // token|nonce -> marshalled metadata recorded at creation
+	// Roles is the system contract's own record of the roles it has granted (account|token ->
+	// role names joined by ','): discipline A7 (a) speaks of what the system contract believes,
+	// not of what the account happens to store
+	Roles map[string]string
 }
 
 // World is one global state: every shard, the in-flight pool, the payability table and the ghost.
@@ -148,7 +153,7 @@ func New(n int) *World {
 	for i := 0; i < n; i++ {
 		w.Shards = append(w.Shards, &Shard{ID: uint32(i), Accts: map[string]*Account{}})
 	}
-	w.Ghost = Ghost{Highest: map[string]uint64{}, Issued: map[string][]byte{}}
+	w.Ghost = Ghost{Highest: map[string]uint64{}, Issued: map[string][]byte{}, Roles: map[string]string{}}
 	return w
 }
 
@@ -173,7 +178,10 @@ func (w *World) Clone() *World {
 	for i, m := range w.Stuck {
 		c.Stuck[i] = m.clone()
 	}
-	c.Ghost = Ghost{Highest: make(map[string]uint64, len(w.Ghost.Highest)), Issued: make(map[string][]byte, len(w.Ghost.Issued))}
+	c.Ghost = Ghost{Highest: make(map[string]uint64, len(w.Ghost.Highest)), Issued: make(map[string][]byte, len(w.Ghost.Issued)), Roles: make(map[string]string, len(w.Ghost.Roles))}
+	for k, v := range w.Ghost.Roles {
+		c.Ghost.Roles[k] = v
+	}
 	for k, v := range w.Ghost.Highest {
 		c.Ghost.Highest[k] = v
 	}
@@ -345,6 +353,15 @@ func (w *World) CanonBytes(withGhost bool) []byte {
 			wb(&b, []byte(k))
 			wb(&b, w.Ghost.Issued[k])
 		}
+		rk := make([]string, 0, len(w.Ghost.Roles))
+		for k := range w.Ghost.Roles {
+			rk = append(rk, k)
+		}
+		sort.Strings(rk)
+		for _, k := range rk {
+			wb(&b, []byte(k))
+			wb(&b, []byte(w.Ghost.Roles[k]))
+		}
 	}
 	return b.Bytes()
 }
@@ -438,6 +455,11 @@ func (w *World) Encode() []byte {
 		wb(&b, []byte(k))
 		wb(&b, v)
 	}
+	wu(&b, uint64(len(w.Ghost.Roles)))
+	for k, v := range w.Ghost.Roles {
+		wb(&b, []byte(k))
+		wb(&b, []byte(v))
+	}
 	return b.Bytes()
 }
 
@@ -483,7 +505,7 @@ func Decode(enc []byte, meta map[string]bool) *World {
 		k := string(r.bytes())
 		w.Payable[k] = int8(r.u64())
 	}
-	w.Ghost = Ghost{Highest: map[string]uint64{}, Issued: map[string][]byte{}}
+	w.Ghost = Ghost{Highest: map[string]uint64{}, Issued: map[string][]byte{}, Roles: map[string]string{}}
 	nh := int(r.u64())
 	for i := 0; i < nh; i++ {
 		k := string(r.bytes())
@@ -494,5 +516,53 @@ func Decode(enc []byte, meta map[string]bool) *World {
 		k := string(r.bytes())
 		w.Ghost.Issued[k] = append([]byte(nil), r.bytes()...)
 	}
+	nr := int(r.u64())
+	for i := 0; i < nr; i++ {
+		k := string(r.bytes())
+		w.Ghost.Roles[k] = string(r.bytes())
+	}
 	return w
+}
+
+// GhostHasRole reports whether the system contract's record says acct holds role for tok.
+func (w *World) GhostHasRole(acct []byte, tok, role string) bool {
+	for _, r := range strings.Split(w.Ghost.Roles[string(acct)+"|"+tok], ",") {
+		if r == role {
+			return true
+		}
+	}
+	return false
+}
+
+func (w *World) ghostSetRoles(acct []byte, tok string, add, remove []string) {
+	k := string(acct) + "|" + tok
+	var cur []string
+	if w.Ghost.Roles[k] != "" {
+		cur = strings.Split(w.Ghost.Roles[k], ",")
+	}
+	for _, r := range remove {
+		for i, x := range cur {
+			if x == r {
+				cur = append(cur[:i], cur[i+1:]...)
+				break
+			}
+		}
+	}
+	for _, r := range add {
+		found := false
+		for _, x := range cur {
+			if x == r {
+				found = true
+			}
+		}
+		if !found {
+			cur = append(cur, r)
+		}
+	}
+	sort.Strings(cur)
+	if len(cur) == 0 {
+		delete(w.Ghost.Roles, k)
+		return
+	}
+	w.Ghost.Roles[k] = strings.Join(cur, ",")
 }
